@@ -31,6 +31,9 @@ type c13Case struct {
 	Name  string
 	Site  *origin.Site
 	Entry string
+	// Endless marks origins that legitimately keep a client busy for ever (they keep sending
+	// deliverable data); every other origin is finite: the client must end by itself
+	Endless bool
 }
 
 func marshalInit(tracks []*fmp4.InitTrack) []byte {
@@ -182,7 +185,8 @@ func c13Cases(seed int64, tier string) []*c13Case {
 		base := fmt.Sprintf("http://hostile.example/%d/", n)
 		n++
 		entry := build(site, base)
-		cases = append(cases, &c13Case{Name: name, Site: site, Entry: entry})
+		endless := name == "playlist/ll-same-hint-forever" || name == "playlist/ll-parts-always-ready" || name == "playlist/fifty-thousand-segments"
+		cases = append(cases, &c13Case{Name: name, Site: site, Entry: entry, Endless: endless})
 	}
 	single := func(name string, init []byte, segs [][]byte) {
 		add(name, func(site *origin.Site, base string) string {
@@ -246,6 +250,9 @@ func c13Cases(seed int64, tier string) []*c13Case {
 	single("ids/swapped", gi, [][]byte{mkSeg(a(1), v(2))})
 	single("ids/unknown-track", gi, [][]byte{mkSeg(v(1), a(7))})
 	single("ids/only-unknown", gi, [][]byte{mkSeg(a(7), a(9))})
+	single("ids/unknown-track-in-second-segment", gi, [][]byte{gs[0], mkSeg(v(1), a(2), a(7)), gs[2]})
+	single("ids/unknown-track-in-last-segment", gi, [][]byte{gs[0], gs[1], mkSeg(v(1), a(2), a(7))})
+	single("ids/unknown-track-first-then-good", gi, [][]byte{mkSeg(a(7), v(1), a(2)), gs[1]})
 	single("ids/no-leading-data", gi, [][]byte{mkSeg(a(2))})
 	single("ids/duplicate-track", gi, [][]byte{mkSeg(v(1), v(1), a(2))})
 	single("ids/init-ids-reversed", marshalInit([]*fmp4.InitTrack{h264Init(2), aacInit(1)}), [][]byte{mkSeg(v(2), a(1))})
@@ -641,12 +648,40 @@ func runC13Case(c *c13Case) *c13Out {
 	if run.WaitResult(700 * time.Millisecond) {
 		out.Self = true
 	} else {
+		if !c.Endless {
+			// a finite origin (a few tenths of a second of media at most): the client must either
+			// end or keep making progress; watch requests and deliveries for a while
+			last := srv.Count() + run.Delivered()
+			idle := 0
+			// (the client may legitimately sleep up to 10 s to pace a unit whose DTS is ahead of the clock)
+			for i := 0; i < 400 && !out.Self; i++ {
+				if run.WaitResult(100 * time.Millisecond) {
+					out.Self = true
+					break
+				}
+				if cur := srv.Count() + run.Delivered(); cur != last {
+					last, idle = cur, 0
+				} else {
+					idle++
+				}
+				if idle >= 125 {
+					break
+				}
+			}
+			if !out.Self {
+				out.Viol = append(out.Viol, fmt.Sprintf("C13/wedged|%s: the stream is finite but the client neither ended nor made progress for 12 s (requests %d, delivered %d, decode errors %d)", c.Name, srv.Count(), run.Delivered(), len(run.DecodeErrs)))
+			}
+		}
+		if out.Self {
+			goto ended
+		}
 		run.C.Close()
 		if !run.WaitResult(8 * time.Second) {
 			out.Viol = append(out.Viol, fmt.Sprintf("C13/close-ignored|%s: the client neither ended nor honoured Close (requests %d)", c.Name, srv.Count()))
 			return out
 		}
 	}
+ended:
 	out.Wait = fmt.Sprint(run.WaitErr)
 	out.Requests = srv.Count()
 	out.Delivered = run.Delivered()
